@@ -64,6 +64,33 @@ let td f list args =
     done
   | _ -> print_string "ERR TD args\n"
 
+(* all 65536 times for each date of a range, from two tables of model evaluations
+   (C18_time_sweep_separable); prints the same digest lines as TD d0 nd 1 0 65536 1 *)
+let time_table = lazy (Array.init 65536 (fun time ->
+  let ts = from_fat N0 (n_of_int time) in
+  let b = List.map int_of_n (le16 (fat_time_of ts)) in
+  (int_of_n ts.hours, int_of_n ts.minutes, int_of_n ts.seconds, List.nth b 0, List.nth b 1)))
+let tx args =
+  match List.map int_of_string args with
+  | [d0; nd] ->
+    let tt = Lazy.force time_table in
+    for i = 0 to nd - 1 do
+      let date = (d0 + i) land 0xFFFF in
+      let ts = from_fat (n_of_int date) N0 in
+      let y = int_of_n ts.year_since_1970 and m = int_of_n ts.zero_indexed_month and d = int_of_n ts.zero_indexed_day in
+      let db = match fat_date_of ts with Val dt -> Some (List.map int_of_n (le16 dt)) | Panic -> None in
+      let h = ref 0 in
+      for time = 0 to 65535 do
+        let (hh, mi, s, t0, t1) = tt.(time) in
+        h := step (step (step (step (step (step !h y) m) d) hh) mi) s;
+        (match db with
+         | Some [b0; b1] -> h := step (step (step (step !h t0) t1) b0) b1
+         | _ -> h := step !h 256)
+      done;
+      Printf.printf "D %d %d\n" date !h
+    done
+  | _ -> print_string "ERR TX args\n"
+
 let te f ts =
   match f.enc ts with
   | Val b -> Printf.sprintf "%s %s" (hex_of_bytes b) (str_of_ts (decode_bytes f b))
@@ -206,6 +233,7 @@ let () =
       match String.split_on_char ' ' (String.trim line) with
       | "TD" :: a -> td t_model false a
       | "TL" :: a -> td t_model true a
+      | "TX" :: a -> tx a
       | "STD" :: a -> td t_spec false a
       | "STL" :: a -> td t_spec true a
       | ["TE"; ts] -> Printf.printf "R %s\n" (te t_model (ts_of_ints (ints_of_csv ts)))
